@@ -4,11 +4,16 @@ package raftv2
 
 import (
 	"context"
+	"net/http"
+	"sort"
+	"time"
 
 	"github.com/aergoio/aergo/v2/consensus"
 	"github.com/aergoio/aergo/v2/types"
+	rtypes "github.com/aergoio/etcd/pkg/types"
 	raftlib "github.com/aergoio/etcd/raft"
 	"github.com/aergoio/etcd/raft/raftpb"
+	"github.com/aergoio/etcd/snap"
 )
 
 // verifNode is a raftlib.Node whose only behaviour is Status(): the raft progress table the
@@ -132,3 +137,257 @@ func VerifUnmarshalBlock(d []byte) (*types.Block, error) { return unmarshalEntry
 
 // VerifSlowGap is MaxSlowNodeGap.
 func VerifSlowGap() uint64 { return MaxSlowNodeGap }
+
+// ------------------------------------------------------------------------------------------
+// Round 3: the production call paths (membership gate, server loop, restart hand-over).
+// Everything below only builds the objects the real functions need and then calls the real
+// functions; no decision is taken here.
+
+// VerifTransport is an inert Transporter. OnSend is called with every message batch the server
+// loop hands to the transport (processMessages), OnPeer with every peer-table change.
+type VerifTransport struct {
+	OnSend func(msgs []raftpb.Message)
+	OnPeer func(what string, id uint64)
+}
+
+func (t *VerifTransport) Start() error          { return nil }
+func (t *VerifTransport) Handler() http.Handler { return nil }
+func (t *VerifTransport) Send(m []raftpb.Message) {
+	if t.OnSend != nil {
+		t.OnSend(m)
+	}
+}
+func (t *VerifTransport) SendSnapshot(m snap.Message) {}
+func (t *VerifTransport) peer(what string, id uint64) {
+	if t.OnPeer != nil {
+		t.OnPeer(what, id)
+	}
+}
+func (t *VerifTransport) AddPeer(id rtypes.ID, peerID types.PeerID, urls []string) {
+	t.peer("add", uint64(id))
+}
+func (t *VerifTransport) RemovePeer(id rtypes.ID)                { t.peer("remove", uint64(id)) }
+func (t *VerifTransport) RemoveAllPeers()                        { t.peer("removeall", 0) }
+func (t *VerifTransport) UpdatePeer(id rtypes.ID, urls []string) {}
+func (t *VerifTransport) ActiveSince(id rtypes.ID) time.Time     { return time.Time{} }
+func (t *VerifTransport) ActivePeers() int                       { return 0 }
+func (t *VerifTransport) Stop()                                  {}
+
+// VerifNewClusterNamed is NewCluster for a node with the given raft name and p2p peer id.
+func VerifNewClusterNamed(name string, peerID types.PeerID) *Cluster {
+	return NewCluster([]byte("verif"), nil, name, peerID, 0, nil)
+}
+
+// VerifAddInitMember adds a configured (not yet applied) member, as the boot configuration does.
+func (cl *Cluster) VerifAddInitMember(m *consensus.Member) error {
+	c := *m
+	return cl.addMember(&c, false)
+}
+
+// VerifIdentity is the identity the cluster object currently carries (what startRaft hands to HasWal).
+func (cl *Cluster) VerifIdentity() consensus.RaftIdentity { return cl.identity }
+
+// VerifMembers returns the ids of the applied and the removed members, ascending.
+func (cl *Cluster) VerifMembers() (applied, removed []uint64) {
+	cl.Lock()
+	defer cl.Unlock()
+	for id := range cl.appliedMembers.MapByID {
+		applied = append(applied, id)
+	}
+	for id := range cl.removedMembers.MapByID {
+		removed = append(removed, id)
+	}
+	sort.Slice(applied, func(i, j int) bool { return applied[i] < applied[j] })
+	sort.Slice(removed, func(i, j int) bool { return removed[i] < removed[j] })
+	return
+}
+
+// VerifMemberByID returns a copy of the applied member with this id (nil if there is none).
+func (cl *Cluster) VerifMemberByID(id uint64) *consensus.Member {
+	cl.Lock()
+	defer cl.Unlock()
+	if m := cl.appliedMembers.getMember(id); m != nil {
+		c := *m
+		return &c
+	}
+	return nil
+}
+
+// VerifServer is a real raftServer (newRaftServer) on a given ChainWAL whose raft node is supplied
+// by the harness (a synchronous node built on the real raft state machine) and whose transport is inert.
+type VerifServer struct {
+	rs *raftServer
+	T  *VerifTransport
+}
+
+func verifServer(wal consensus.ChainWAL, cl *Cluster, tr *VerifTransport) *raftServer {
+	rs := newRaftServer(nil, cl, false, false, nil, time.Hour, cl.confChangeC, make(chan *commitEntry, 8192), true, wal)
+	rs.transport = tr
+	cl.rs = rs
+	return rs
+}
+
+// VerifAttachServer gives an existing cluster (VerifNewCluster + VerifSetRaft) what the request and
+// raft-log paths of a membership change touch beyond the raft status: the WAL (conf-change progress
+// records), an inert transport, and a proposal channel with room for one proposal so that the
+// non-blocking send of submitProposal succeeds exactly when no proposal is pending.
+func (cl *Cluster) VerifAttachServer(wal consensus.ChainWAL) {
+	cl.rs.walDB = NewWalDB(wal)
+	cl.rs.transport = &VerifTransport{}
+	cl.confChangeC = make(chan *consensus.ConfChangePropose, 1)
+}
+
+// VerifChangeMembershipProd is the real request path Cluster.ChangeMembership(req, nowait=true):
+// makeProposal (NewMemberFrom…Req, makeConfChange, validateChangeMembership) → isEnableChangeMembership
+// → submitProposal. The proposal that reached the channel (nil if none did) is returned. Unless
+// keepPending, the channel is drained and the saved proposal reset, as AfterConfChange does when raft
+// has dealt with the change.
+func (cl *Cluster) VerifChangeMembershipProd(req *types.MembershipChange, keepPending bool) (*raftpb.ConfChange, error) {
+	_, err := cl.ChangeMembership(req, true)
+	var cc *raftpb.ConfChange
+	if !keepPending {
+		select {
+		case p := <-cl.confChangeC:
+			cc = p.Cc
+		default:
+		}
+		cl.Lock()
+		cl.resetSavedConfChangePropose()
+		cl.Unlock()
+	} else if cl.savedChange != nil {
+		cc = cl.savedChange.Cc
+	}
+	return cc, err
+}
+
+// VerifMakeConfChangeProposal is the real BlockFactory.MakeConfChangeProposal (the path of the
+// enterprise-contract conf change) on a BlockFactory that has only the cluster and the raft server.
+func (cl *Cluster) VerifMakeConfChangeProposal(req *types.MembershipChange) (*raftpb.ConfChange, error) {
+	bf := &BlockFactory{bpc: cl, raftServer: cl.rs}
+	p, err := bf.MakeConfChangeProposal(req)
+	if p == nil {
+		return nil, err
+	}
+	return p.Cc, err
+}
+
+// VerifValidateConfChangeEntry / VerifApplyConfChange: the raft-log path of a committed conf-change entry.
+func (cl *Cluster) VerifValidateConfChangeEntry(ent *raftpb.Entry) error {
+	_, _, err := cl.rs.ValidateConfChangeEntry(ent)
+	return err
+}
+func (cl *Cluster) VerifApplyConfChange(ent *raftpb.Entry) bool { return cl.rs.applyConfChange(ent) }
+
+// VerifPublishSnapshot is the real publishSnapshot of the server loop (Cluster.Recover inside).
+func (cl *Cluster) VerifPublishSnapshot(s raftpb.Snapshot) error { return cl.rs.publishSnapshot(s) }
+
+// VerifStartServer does what startRaft/startNode do for a new cluster, except that the raft node is
+// built by mk (on the same Config and start peers) instead of raftlib.StartNode: SetThisNodeID,
+// GenerateID, SaveIdentity, fresh MemoryStorage, makeConfig, makeStartPeers.
+func VerifStartServer(wal consensus.ChainWAL, cl *Cluster, tr *VerifTransport, mk func(c *raftlib.Config, peers []raftlib.Peer) raftlib.Node) (*VerifServer, error) {
+	rs := verifServer(wal, cl, tr)
+	if err := rs.cluster.SetThisNodeID(); err != nil {
+		return nil, err
+	}
+	if rs.cluster.ClusterID() == InvalidClusterID {
+		rs.cluster.GenerateID(false)
+	}
+	if err := rs.SaveIdentity(); err != nil {
+		return nil, err
+	}
+	rs.raftStorage = raftlib.NewMemoryStorage()
+	peers, err := rs.makeStartPeers()
+	if err != nil {
+		return nil, err
+	}
+	// raft creates the initial conf-change entries in the order of the peer list; getStartPeers ranges over a map
+	sort.Slice(peers, func(i, j int) bool { return peers[i].ID < peers[j].ID })
+	rs.setNodeSync(mk(makeConfig(rs.ID(), rs.raftStorage), peers))
+	return &VerifServer{rs: rs, T: tr}, nil
+}
+
+// VerifHandOver is what the restart path handed to the consensus library.
+type VerifHandOver struct {
+	Hard      raftpb.HardState // MemoryStorage.InitialState
+	Conf      raftpb.ConfState
+	Snap      raftpb.Snapshot
+	First     uint64
+	Last      uint64
+	Ents      []raftpb.Entry
+	LastIndex uint64 // raftServer.lastIndex
+	Term      uint64 // raftServer.curTerm
+	Identity  consensus.RaftIdentity
+	RaftHard  raftpb.HardState // what the restarted raft state machine reports
+}
+
+// VerifRestartServer runs the restart branch of startRaft on a WAL for which HasWal answered true:
+// ResetMembers, then the real restartNode (loadSnapshot → replayWAL (ReadAll, RecoverIdentity,
+// ApplySnapshot, SetHardState, Append) → Cluster.Recover → raftlib.RestartNode). The node it returns is
+// asked for its status and stopped; the server then gets the node built by mk on the same storage.
+// The callers check beforehand (with the non-fatal getters) that none of the logger.Fatal exits is due.
+func VerifRestartServer(wal consensus.ChainWAL, cl *Cluster, tr *VerifTransport, mk func(c *raftlib.Config, peers []raftlib.Peer) raftlib.Node) (*VerifServer, *VerifHandOver) {
+	rs := verifServer(wal, cl, tr)
+	rs.cluster.ResetMembers()
+	node := rs.restartNode(false)
+	st := node.Status()
+	node.Stop()
+	h := &VerifHandOver{LastIndex: rs.lastIndex, Term: rs.curTerm, Identity: cl.identity, RaftHard: st.HardState}
+	h.Hard, h.Conf, _ = rs.raftStorage.InitialState()
+	h.Snap, _ = rs.raftStorage.Snapshot()
+	h.First, _ = rs.raftStorage.FirstIndex()
+	h.Last, _ = rs.raftStorage.LastIndex()
+	if h.Last >= h.First {
+		h.Ents, _ = rs.raftStorage.Entries(h.First, h.Last+1, 1<<40)
+	}
+	if mk != nil {
+		rs.setNodeSync(mk(makeConfig(rs.ID(), rs.raftStorage), nil))
+	}
+	return &VerifServer{rs: rs, T: tr}, h
+}
+
+// VerifHasWal is the question startRaft asks first.
+func (cl *Cluster) VerifHasWal(wal consensus.ChainWAL) (bool, error) {
+	return NewWalDB(wal).HasWal(cl.identity)
+}
+
+// Serve starts the real server loop.
+func (v *VerifServer) Serve() { go v.rs.serveChannels() }
+
+// Stop ends the server loop the way the real server is stopped (stop channel).
+func (v *VerifServer) Stop() { close(v.rs.stopc) }
+
+func (v *VerifServer) Storage() *raftlib.MemoryStorage { return v.rs.raftStorage }
+func (v *VerifServer) Cluster() *Cluster               { return v.rs.cluster }
+func (v *VerifServer) SetLeader(b bool)                { v.rs.leaderStatus.IsLeader = b }
+func (v *VerifServer) SetSnapFrequency(n uint64)       { v.rs.snapFrequency = n }
+
+// VerifCommitted is one entry the server loop published on the commit channel.
+type VerifCommitted struct {
+	Block *types.Block
+	Index uint64
+	Term  uint64
+}
+
+// DrainCommitted takes what the server loop has published so far from the commit channel (the chain
+// service is the consumer in a node). connect: report the last block among them as connected to the
+// chain (CommitProgress.UpdateConnect), which is what lets triggerSnapshot take a snapshot.
+func (v *VerifServer) DrainCommitted(connect bool) []VerifCommitted {
+	var out []VerifCommitted
+	for {
+		select {
+		case ce, ok := <-v.rs.commitC:
+			if !ok {
+				return out
+			}
+			if ce == nil {
+				continue
+			}
+			out = append(out, VerifCommitted{Block: ce.block, Index: ce.index, Term: ce.term})
+			if connect && ce.block != nil {
+				v.rs.commitProgress.UpdateConnect(ce)
+			}
+		default:
+			return out
+		}
+	}
+}
